@@ -870,6 +870,72 @@ def _stateless(model: Model, H: RuleResult):
             H.ok(fi.fq, "%s writes no instance attribute (stateless evaluation)" % fi.qualname)
 
 
+def _extrap_shapes(model: Model, V: RuleResult):
+    """Value extrapolation has the batch shape of y: every returning branch of get_extrap_val yields (*BY, nq_out) for queries
+    (nq_out,) and samples (*BY, nr), and the result buffer of BaseInterp1D.__call__ is (*BY, nq).  Shape domain, all batch patterns of
+    rank <= 2 (each axis 1 or > 1)."""
+    from ..domains.shapes import ShapeInterp, T, ShapeError
+    from ..domains.poly import Uninterpretable as _U
+    gv = model.func(EXTRAP, "get_extrap_val")
+    pq, py, pe = gv.params()[:3]
+    batches = [(), (1,), ("b1",), (1, "b1"), ("b2", 1), ("b2", "b1")]
+
+    def hook(it, c):
+        if isinstance(c.func, ast.Name) and c.func.id == pe:
+            return T(("nq",))                    # a user callable maps the outside queries (nq,) to values (nq,)
+        return None
+    rets = [r for r in own_nodes(gv.node) if isinstance(r, ast.Return) and r.value is not None]
+    if not rets:
+        raise AnalysisError("C14-V: get_extrap_val returns nothing")
+    pre = [s_ for s_ in gv.node.body if isinstance(s_, (ast.Assign, ast.AnnAssign))]
+    for r in rets:
+        bad = None
+        for by in batches:
+            it = ShapeInterp({pq: T(("nq",)), py: T(by + ("nr",)), pe: 0.0}, call_hook=hook)
+            try:
+                it.run(pre)
+                got = it.ev(r.value)
+            except ShapeError as e:
+                bad = (by, "shape error: %s" % e)
+                break
+            except _U as e:
+                raise AnalysisError("C14-V: cannot determine the shape of `%s`: %s" % (norm_stmt(r, 70), e))
+            want = by + ("nq",)
+            if not (isinstance(got, T) and tuple(got.shape) == want):
+                bad = (by, "%s" % (tuple(got.shape) if isinstance(got, T) else got,))
+                break
+        if bad is None:
+            V.ok(gv.fq, "`%s` has shape (*BY, nq) for all %d batch patterns" % (norm_stmt(r, 60), len(batches)))
+        else:
+            V.bad(gv, r, "for y of shape %s and %s outside queries this exit returns %s instead of %s: the batch dimensions of y are lost (a (1, nr) sample "
+                  "silently yields an unbatched result, a real batch fails later)" % (bad[0] + ("nr",), "nq", bad[1], bad[0] + ("nq",)))
+    call = model.func(I1D, "BaseInterp1D.__call__")
+    pxq = call.params()[1]
+    bufs = [s_ for s_ in own_nodes(call.node) if isinstance(s_, ast.Assign) and isinstance(s_.value, ast.Call)
+            and ast.unparse(s_.value.func).split(".")[-1] in ("empty", "zeros", "new_empty", "new_zeros", "empty_like", "zeros_like")]
+    if not bufs:
+        raise AnalysisError("C14-V: the result buffer of BaseInterp1D.__call__ was not found")
+    for b in bufs:
+        bad = None
+        for by in batches:
+            env = {"y": T(by + ("nr",)), pxq: T(("nrq",)), "yqextrap": T(by + ("nqe",)), "yqinterp": T(by + ("nqi",))}
+            it = ShapeInterp(env)
+            try:
+                got = it.ev(b.value)
+            except ShapeError as e:
+                bad = (by, "shape error: %s" % e)
+                break
+            except _U as e:
+                raise AnalysisError("C14-V: cannot determine the shape of the result buffer `%s`: %s" % (norm_stmt(b, 70), e))
+            if not (isinstance(got, T) and tuple(got.shape) == by + ("nrq",)):
+                bad = (by, tuple(got.shape) if isinstance(got, T) else got)
+                break
+        if bad is None:
+            V.ok(call.fq, "result buffer `%s` is (*BY, nrq) for all batch patterns" % norm_stmt(b, 60))
+        else:
+            V.bad(call, b, "the result buffer is %s for y of batch shape %s; it must be (*BY, nrq)" % (bad[1], bad[0]))
+
+
 def rules(model: Model, tier: str) -> List[RuleResult]:
     E = RuleResult(PROP, "C14-E", "both evaluation formulas == the cubic Hermite / linear interpolant (rational normal form)", min_instances=6)
     Sx = RuleResult(PROP, "C14-S", "interval search: searchsorted(x, xq), right index clamped to [1, nr-1], left = right - 1", min_instances=6)
@@ -897,4 +963,6 @@ def rules(model: Model, tier: str) -> List[RuleResult]:
         D.ok(call.fq, "the mapped queries are a clone of xq (gradient w.r.t. the queries is kept); nothing is detached")
     else:
         D.bad(call, enclosing_stmt(dt[0]) if dt else call.node, "BaseInterp1D.__call__ detaches a value on the differentiable path (queries / y)")
-    return [E, Sx, B, K, X, M, P, D, H]
+    Vs = RuleResult(PROP, "C14-V", "value extrapolation keeps the batch shape of y: every exit of get_extrap_val and the result buffer are (*BY, nq) (shape domain)", min_instances=4)
+    _extrap_shapes(model, Vs)
+    return [E, Sx, B, K, X, M, P, D, H, Vs]
